@@ -64,6 +64,26 @@ func (vc *VC) resultType(sig *types.Signature) types.Type {
 }
 
 func (fr *Frame) callWith(st *State, c *ssa.CallCommon, args []Val, site ssa.Instruction) Val {
+	if len(fr.vc.labels) > 0 {
+		// state right before a counted call: before(Label, expr)
+		key := ""
+		if c.IsInvoke() {
+			key = ifaceMethodKey(c)
+		} else if f, ok := c.Value.(*ssa.Function); ok {
+			if f.Origin() != nil {
+				f = f.Origin()
+			}
+			key = funcKey(f)
+		}
+		for _, lab := range fr.vc.p.countOf[key] {
+			if fr.vc.labels[lab] {
+				if fr.vc.beforeState == nil {
+					fr.vc.beforeState = map[string]*State{}
+				}
+				fr.vc.beforeState[lab] = st.clone()
+			}
+		}
+	}
 	res := fr.callWith0(st, c, args, site)
 	// remember the result of counted calls: last(Label) in specifications
 	if len(fr.vc.labels) > 0 {
@@ -654,7 +674,7 @@ func mentionsCallHistory(x SExpr) bool {
 	walk = func(x SExpr) {
 		switch x := x.(type) {
 		case *SCall:
-			if id, ok := x.Fun.(*SIdent); ok && (id.Name == "calls" || id.Name == "last" || id.Name == "at" || id.Name == "alltrue" || id.Name == "first") {
+			if id, ok := x.Fun.(*SIdent); ok && (id.Name == "calls" || id.Name == "last" || id.Name == "at" || id.Name == "alltrue" || id.Name == "first" || id.Name == "before") {
 				found = true
 			}
 			walk(x.Fun)
@@ -692,7 +712,7 @@ func historyLabels(ct *Contract) map[string]bool {
 	walk = func(x SExpr) {
 		switch x := x.(type) {
 		case *SCall:
-			if id, ok := x.Fun.(*SIdent); ok && (id.Name == "calls" || id.Name == "last" || id.Name == "at" || id.Name == "alltrue" || id.Name == "first") && len(x.Args) >= 1 {
+			if id, ok := x.Fun.(*SIdent); ok && (id.Name == "calls" || id.Name == "last" || id.Name == "at" || id.Name == "alltrue" || id.Name == "first" || id.Name == "before") && len(x.Args) >= 1 {
 				if l, ok := x.Args[0].(*SIdent); ok {
 					out[l.Name] = true
 				}
@@ -1423,6 +1443,33 @@ func (fr *Frame) lookupLocal(st *State, name string, at *ssa.BasicBlock) (Val, b
 	}
 	p := fr.val(st, best.v)
 	return vc.loadAt(st, p.S[0], p.S[1], best.v.Type().Underlying().(*types.Pointer).Elem()), true
+}
+
+// lookupLocalAddr: the address of a source-level local that is kept in memory.
+func (fr *Frame) lookupLocalAddr(st *State, name string, at *ssa.BasicBlock) (Val, bool) {
+	var best *ssa.Alloc
+	bestDepth := -1
+	for _, b := range fr.fn.Blocks {
+		for _, in := range b.Instrs {
+			a, ok := in.(*ssa.Alloc)
+			if !ok || a.Comment != name || fr.reg[a] {
+				continue
+			}
+			if _, avail := fr.vals[a]; !avail {
+				continue
+			}
+			if at != nil && !a.Block().Dominates(at) {
+				continue
+			}
+			if d := domDepth(a.Block()); d > bestDepth {
+				best, bestDepth = a, d
+			}
+		}
+	}
+	if best == nil {
+		return Val{}, false
+	}
+	return fr.val(st, best), true
 }
 
 func domDepth(b *ssa.BasicBlock) int {
